@@ -24,19 +24,26 @@ def check(chk, facts, rule="C06.GUARD.slot"):
         sites = [(b, "EntityReference::Slot", s[3]) for b, s in f.stmts()
                  if s[0] == "a" and s[2][0] == "agg" and s[2][1][0] == "adt" and s[2][1][2] == "Slot" and str(s[2][1][1]).endswith("ast::policy::EntityReference")]
         sites += [(b, "is_entity_type_in_slot", t[1].get("l")) for b, t in f.calls() if callee(t).endswith("::is_entity_type_in_slot")]
-        eqs = [(b, t) for b, t in f.calls() if callee(t).endswith("SlotId as std::cmp::PartialEq>::eq")]
+        eqs = [(b, t) for b, t in f.calls() if callee(t).endswith(("SlotId as std::cmp::PartialEq>::eq", "SlotId as std::cmp::PartialEq>::ne"))]
         bad = []
         for b, what, line in sites:
             ok = False
             for d, taken in cfg.guard_edges(f, b):
                 sw = f.blocks[d]["t"]
-                if sw[1][0] not in "cm" or [v for v, _ in taken] != ["else"]:
-                    continue            # `else` of a switch on a bool = the comparison answered true
+                if sw[1][0] not in "cm":
+                    continue
                 lp = leaf_producers(f, sw[1])
-                if not any("SlotId as std::cmp::PartialEq>::eq" in str(x) for x in lp):
+                tv = [v for v, _ in taken]
+                # the site lies on the "slots are equal" side: `==` answered true (`else` of the bool switch) or `!=` answered false (0)
+                want = None
+                if any("SlotId as std::cmp::PartialEq>::eq" in str(x) for x in lp) and tv == ["else"]:
+                    want = "::eq"
+                elif any("SlotId as std::cmp::PartialEq>::ne" in str(x) for x in lp) and tv in ([0], ["0"]):
+                    want = "::ne"
+                if want is None:
                     continue
                 for eb, t in eqs:
-                    if not cfg.dominates(f, eb, d):
+                    if not cfg.dominates(f, eb, d) or not callee(t).endswith(want):
                         continue
                     ops = [leaf_producers(f, a) for a in t[2]]
                     has_payload = any(any(str(x).startswith("place:") and str(x).endswith("Slot.slot") for x in o) for o in ops)
